@@ -79,7 +79,7 @@ def run(prog: Program, ctx: Ctx) -> None:  # noqa: PLR0912,PLR0915
         vfs = {**vfs, "order": ORDERS[order]}
         it.vfs = vfs
 
-        it.stubs[f"{F}._is_pkg_style_namespace"] = lambda _i, init: "declare_namespace" in vfs["files"].get(init, "")
+        # (_is_pkg_style_namespace is evaluated on the file's text: the vfs serves read_text)
         return Obj(fcls, {"search_paths": [PP(p) for p in search_paths], "_paths_contents": {}, "_always_scan_for": {}}, label="finder")
 
     def describe(pkg) -> str:
@@ -113,6 +113,10 @@ def run(prog: Program, ctx: Ctx) -> None:  # noqa: PLR0912,PLR0915
         "namespace portion": {"{p}/pkg/a.py": ""},
         "pkgutil namespace": {"{p}/pkg/__init__.py": "__import__('pkg_resources').declare_namespace(__name__)", "{p}/pkg/b.py": ""},
         "package and module": {"{p}/pkg/__init__.py": "", "{p}/pkg.py": ""},
+        # the declaration as tools write it: guarded by try/except, after a docstring; a commented-out one declares nothing
+        "pkgutil namespace (try/except form)": {"{p}/pkg/__init__.py": '"""Namespace."""\ntry:\n    __import__("pkg_resources").declare_namespace(__name__)\nexcept ImportError:\n'
+                                                                       '    __path__ = __import__("pkgutil").extend_path(__path__, __name__)\n', "{p}/pkg/c.py": ""},
+        "pkgutil namespace (extend_path)": {"{p}/pkg/__init__.py": "__path__ = __import__('pkgutil').extend_path(__path__, __name__)\n", "{p}/pkg/d.py": ""},
     }
 
     def reference(f1: str, f2: str) -> str:
@@ -123,7 +127,7 @@ def run(prog: Program, ctx: Ctx) -> None:  # noqa: PLR0912,PLR0915
                 return f"Package(pkg, {p}/pkg/__init__.py, stubs={stubs})"
             if form == "stub-only package":
                 return f"Package(pkg, {p}/pkg/__init__.pyi, stubs=None)"
-            if form in ("namespace portion", "pkgutil namespace"):
+            if form == "namespace portion" or form.startswith("pkgutil namespace"):
                 ns.append(f"{p}/pkg")
                 continue
             if form in ("module", "module+stub"):
@@ -160,7 +164,8 @@ def run(prog: Program, ctx: Ctx) -> None:  # noqa: PLR0912,PLR0915
         "namespace over two paths": ({"/p1/ns/x.py": "", "/p1/ns/sub/__init__.py": "", "/p1/ns/sub/m.py": "", "/p2/ns/y.py": "", "/p2/ns/sub/__init__.py": "", "/p2/ns/sub/n.py": "", "/p2/ns/other/__init__.py": ""},
                                      [PP("/p1/ns"), PP("/p2/ns")],
                                      {("x",): "/p1/ns/x.py", ("sub",): "/p1/ns/sub/__init__.py", ("sub", "m"): "/p1/ns/sub/m.py", ("y",): "/p2/ns/y.py", ("other",): "/p2/ns/other/__init__.py"}),
-        "pkgutil namespace over two paths": ({"/p1/ns/__init__.py": "declare_namespace", "/p1/ns/one.py": "", "/p2/ns/__init__.py": "declare_namespace", "/p2/ns/two.py": ""},
+        "pkgutil namespace over two paths": ({"/p1/ns/__init__.py": "__import__('pkg_resources').declare_namespace(__name__)\n", "/p1/ns/one.py": "",
+                                              "/p2/ns/__init__.py": "try:\n    __import__('pkg_resources').declare_namespace(__name__)\nexcept ImportError:\n    __path__ = __import__('pkgutil').extend_path(__path__, __name__)\n", "/p2/ns/two.py": ""},
                                              [PP("/p1/ns"), PP("/p2/ns")], {("one",): "/p1/ns/one.py", ("two",): "/p2/ns/two.py"}),
         "stub-only sub-package": ({"/s/pkg/__init__.py": "", "/s/pkg/sub/__init__.pyi": "", "/s/pkg/sub/m.pyi": ""}, PP("/s/pkg/__init__.py"),
                                   {("sub",): "/s/pkg/sub/__init__.pyi", ("sub", "m"): "/s/pkg/sub/m.pyi"}),
@@ -278,8 +283,12 @@ def run(prog: Program, ctx: Ctx) -> None:  # noqa: PLR0912,PLR0915
     for layout, files in {
         "checkout outside the search paths": {"/site/pkg/__init__.py": "", "/checkout/src/pkg/__init__.py": "", "/checkout/src/pkg/mod.py": ""},
         "checkout with a sub-package": {"/site/pkg/__init__.py": "", "/site/pkg/sub/__init__.py": "", "/checkout/src/pkg/__init__.py": "", "/checkout/src/pkg/sub/__init__.py": ""},
+        # a directory whose name merely starts like a search path (`/site` and `/site-packages`, `lib` and `lib2`) is not inside it
+        "checkout in a directory named like the search path plus a suffix": {"/site/other/__init__.py": "", "/site-packages/checkout/src/pkg/__init__.py": ""},
     }.items():
         for target in ("/checkout/src/pkg", "/checkout/src/pkg/__init__.py"):
+            if "suffix" in layout:
+                target = "/site-packages" + target
             fo = finder(["/site"], _vfs(files), "sorted")
             it.steps = 0
             try:
@@ -287,7 +296,7 @@ def run(prog: Program, ctx: Ctx) -> None:  # noqa: PLR0912,PLR0915
                 got = describe(res[1]) if isinstance(res, tuple) else str(res)
             except Raised as r:
                 got = f"raises {r.exc}"
-            want = "Package(pkg, /checkout/src/pkg/__init__.py, stubs=None)"
+            want = f"Package(pkg, {'/site-packages' if 'suffix' in layout else ''}/checkout/src/pkg/__init__.py, stubs=None)"
             ctx.ob("R2", f"by-path|{layout}|{target}", got == want, f"find_spec(Path('{target}')) with /site on the search paths and {layout}: {got}; the requested directory is {want}", where(fs))
     it.stubs.clear()
     it.vfs = None
